@@ -307,7 +307,15 @@ def r7(ctx):
     ctx.floor(R, 2)
 
 
+def r10(ctx):
+    R = "C02-R10"
+    ctx.rule(R, "StreamSocket::next_send_seq is a monotone counter (every write is +1 of itself): no two segments of a stream share a sequence number")
+    counter_rule(ctx, R, "turmoil::host::StreamSocket::next_send_seq", step=1)
+    ctx.floor(R, 1)
+
+
 def run(ctx):
+    r10(ctx)
     from . import C03
     C03.r7(ctx, ops=("hold", "release"), R="C02-R9")    # a released link is healthy again in both directions (bytes keep flowing after hold / release)
     r7(ctx)
